@@ -11,6 +11,16 @@ to a field F = (class, name, type) that some added DEX defines:
                fields, reads under read and writes under write
   once/fields  every defined field occurs exactly once in dx.get_fields() (and the multiset of (field, reads, writes) and
                the per-class field lists are the expected ones)
+History part (4 in 10 generated cases; the history is the model's 'renames' list, so it is stored and replayed with the
+case): after the files were added to the Analysis and before create_xref(), 1..4 defined fields / non-constructor methods
+are renamed to fresh names with EncodedField.set_name / EncodedMethod.set_name. A rename changes the name of one
+field_id / method_id item; which instruction accesses which field is untouched. So the expectation is the same access
+list with the renamed item's new name on both sides (definition and the instructions of the same file; an instruction of
+another DEX file keeps naming the old, now undefined, field): the FieldAnalysis of the renamed EncodedField must list the
+same methods and offsets as without the rename. (Renames of classes are not generated: the statement is about fields.)
+Large-pool part (one shard, a handful of cases): single-DEX models whose pools are padded with unreferenced filler entries
+so that accessed fields (and their classes / types) sit on field indices 0x7fff / 0x8000 / 0x8001 / .. 0xffff.
+Payloads in the middle of the code (xrefgen 'mid' sites) put accesses behind a switch / fill-array-data payload.
 Shipped part: the same clauses over shipped DEX/APK files (access list read from the raw code units).
 
 Open finding field-owner (cannot be fixed without changing a pinned count in tests/test_analysis.py::testAPK): step 4 of
@@ -26,6 +36,8 @@ neither is a violation (reported against whichever of the two it is closer to). 
 """
 from collections import Counter
 
+from hypothesis import strategies as st
+
 from vf.gen import dalvik_spec as ds
 from vf.gen import xrefgen as X
 from vf.checks import _xref as A
@@ -34,13 +46,18 @@ PROPERTY = 'C14'
 LEVEL = 'exploration'
 RULE = ('generated: xrefgen model (2..5 classes over 1..4 DEX files, fields of 10 types static/instance, all 28 field '
         'opcodes, accesses to own / other-class / other-DEX / external / undefined fields, repeated offsets) -> DEX bytes -> '
-        'Analysis; FieldAnalysis and MethodAnalysis field xrefs compared with the model. shipped: every method of the shipped '
+        'Analysis; FieldAnalysis and MethodAnalysis field xrefs compared with the model. 4 in 10 cases carry a drawn history '
+        '(1..4 renames of defined fields / methods between add() and create_xref()); bodies contain switch / fill-array-data '
+        'payloads in the middle of the code; one shard analyses a few single-DEX models padded to > 0x8000 / 0xffff pool '
+        'entries with the accessed fields on the index boundaries. shipped: every method of the shipped '
         'DEX/APK files. non-trivial = an access to a defined field from a class other than its owner; distinct = model')
 ASSUMPTIONS = ['vf/gen/dexgen.py writes well-formed DEX files; vf/gen/asm.py + dalvik_spec.py give instruction sizes/offsets',
                'the target field of an instruction is the (class, name, type) triple of its field_id; a reference through a '
                'subclass to an inherited field is not "defined" and must not be attributed to any FieldAnalysis',
                'shipped files: pool indices are resolved to names by androguard.core.dex (parser), not by analysis.py',
-               'open finding field-owner: clauses are accepted when they equal the exact defect model (see module docstring)']
+               'open finding field-owner: clauses are accepted when they equal the exact defect model (see module docstring)',
+               'rename history: set_name() renames one field_id / method_id item of one DEX file; new names are fresh, so no '
+               'other reference starts or stops naming a defined member except through that item']
 
 KNOWN = ':field-owner'
 
@@ -208,26 +225,66 @@ def _labels(model, exp):
         if any(n > 1 for n in offs.values()):
             labels.add('repeated-access')
     labels.add('ndex:%d' % model['ndex'])
-    return sorted(labels), nt
+    labels |= X.payload_labels(model, kinds=('fld',))
+    return labels, nt
+
+
+def _rename_labels(model, exp0):
+    """what the drawn history does (exp0 = expectation before the renames)"""
+    dexof = X.dex_of(model)
+    labels = {'history:rename'}
+    for r in model['renames']:
+        if r[0] == 'f':
+            fk = (r[1], r[2], r[3])
+            if fk not in exp0['defined_fields']:
+                continue
+            labels.add('history:rename-field')
+            for mk, sl in exp0['sites'].items():
+                for (off, op, kind, t) in sl:
+                    if kind == 'fld' and t == fk:
+                        if dexof[mk[0]] != dexof[fk[0]]:
+                            labels.add('history:renamed-field-still-named-by-other-dex')
+                        else:
+                            labels.add('history:renamed-field-accessed')
+                            if mk[0] == fk[0]:
+                                labels.add('history:renamed-field-accessed-from-own-class')
+        else:
+            mk = (r[1], r[2], A.desc(r[3], r[4]))
+            if mk not in exp0['defined_methods']:
+                continue
+            labels.add('history:rename-method')
+            if any(kind == 'fld' and t in exp0['defined_fields'] for (_, _, kind, t) in exp0['sites'].get(mk, ())):
+                labels.add('history:renamed-method-accesses-defined-field')
+    return labels
 
 
 def run_model(ctx, model, record=True):
     model = X.normalize(model)
     case = {'mode': 'model', 'model': model}
-    exp = A.exp_from_model(model)
-    datas = [b for (b, _) in X.build(model)]
-    labels, nt = _labels(model, exp)
+    renames = model.get('renames')
+    dexof = X.dex_of(model)
+    exp0 = A.exp_from_model(model)
+    exp = A.rename_exp(exp0, dexof, renames) if renames else exp0
+    built = X.build(model)
+    datas = [b for (b, _) in built]
+    labels, nt = _labels(model, exp0)
     if record:
-        ctx.case(nontrivial=nt, key=repr(model), labels=labels,
-                 sample={'fields': sorted(exp['defined_fields'])[:6], 'ndex': model['ndex'],
-                         'accesses': [[k[0], k[1], o, '%02x' % op, t] for k, v in exp['sites'].items()
-                                      for (o, op, kd, t) in v if kd == 'fld'][:8]})
+        if renames:
+            labels |= _rename_labels(model, exp0)
+        if model.get('bulk'):
+            labels.add('large-pool')
+            labels |= {l for l in X.index_labels(model, [df for (_, df) in built]) if l.startswith('idx:fld:')}
+        ctx.case(nontrivial=nt, key=repr(model), labels=sorted(labels),
+                 sample={'fields': sorted(exp0['defined_fields'])[:6], 'ndex': model['ndex'],
+                         'accesses': [[k[0], k[1], o, '%02x' % op, t] for k, v in exp0['sites'].items()
+                                      for (o, op, kd, t) in v if kd == 'fld'][:8],
+                         'renames': renames, 'bulk': model.get('bulk')})
     try:
-        dx, vms = A.analyse(datas)
+        dx, vms = A.analyse(datas, renames=renames)
     except A.AnalysisFailure as e:
         ctx.fail('exception:' + e.where, case, e.tb)
         return
-    check(ctx, exp, dx, vms, case, X.dex_of(model))
+    check(ctx, exp, dx, vms, case, dexof)
 
 
 def run_file(ctx, name):
@@ -261,16 +318,37 @@ def run_file(ctx, name):
     check(ctx, exp, dx, vms, case, dexof)
 
 
+@st.composite
+def cases(draw):
+    """model; 4 in 10 with a rename history"""
+    base = X.models(profile='fields')
+    if draw(st.integers(0, 9)) < 4:
+        return draw(X.with_renames(base))
+    return draw(base)
+
+
+def _rich(model):
+    """large-pool cases are expensive: keep those with >= 2 instance (22c) and >= 1 static (21c) access to defined fields"""
+    df = X.defined_fields(model)
+    ops = [s[1] for c in model['classes'] for m in c['methods'] if m['code'] for s in m['body']
+           if s[0] == 'fld' and (s[2], s[3], s[4]) in df]
+    return sum(1 for o in ops if o < 0x60) >= 2 and any(o >= 0x60 for o in ops)
+
+
 def shards(tier, seed):
     n = 12 if tier == 'quick' else 40
-    sh = [('gen', k) for k in range(n)]
+    sh = [('large', k) for k in range(1 if tier == 'quick' else 4)] + [('gen', k) for k in range(n)]
     return sh + A.file_shards(tier)
 
 
 def run_shard(ctx, shard):
     if shard[0] == 'gen':
         n = 800 if ctx.tier == 'quick' else 2500
-        A.collect(ctx, X.models(profile='fields'), run_model, n, salt=shard[1], skip=lambda b: b.endswith(KNOWN))
+        A.collect(ctx, cases(), run_model, n, salt=shard[1], skip=lambda b: b.endswith(KNOWN))
+    elif shard[0] == 'large':
+        n = 4 if ctx.tier == 'quick' else 12
+        A.collect(ctx, X.large_models(profile='fields').filter(_rich), run_model, n, salt=200 + shard[1],
+                  skip=lambda b: b.endswith(KNOWN))
     else:
         for name in shard[1]:
             run_file(ctx, name)
